@@ -342,6 +342,39 @@ func runC20(c *Ctx) {
 		histories++
 	}
 	r.Count("forward_call_histories_before_backward_calls", int64(histories))
+	// ---- forward answers do not depend on what was translated BACK or
+	// printed before: every backward call (-2..8, also through String)
+	// directly followed by every forward call (-8..64)
+	{
+		okF := true
+		pairs := 0
+		for l := -2; l <= 8 && okF; l++ {
+			for via := 0; via < 2 && okF; via++ {
+				for sq := -8; sq <= 64 && okF; sq++ {
+					lvl := dblib.ASEIsolationLevel(l)
+					if via == 0 {
+						_ = lvl.ToGo()
+					} else {
+						_ = lvl.String()
+					}
+					sl := sql.IsolationLevel(sq)
+					got, err := dblib.ASEIsolationLevelFromGo(sl)
+					r.Eval(1)
+					pairs++
+					w, supported := want[sl]
+					switch {
+					case supported && (err != nil || got != w):
+						r.Violate("forward/depends-on-history/after-backward-call", fmt.Sprintf("FromGo(%d) = (%d, %v) directly after ASEIsolationLevel(%d).%s; want (%d, nil)", sq, got, err, l, []string{"ToGo()", "String()"}[via], w), map[string]int{"sql": sq, "ase_before": l})
+						okF = false
+					case !supported && err == nil:
+						r.Violate("forward/depends-on-history/after-backward-call", fmt.Sprintf("FromGo(%d) = (%d, nil) directly after ASEIsolationLevel(%d).%s; want an error", sq, got, l, []string{"ToGo()", "String()"}[via]), map[string]int{"sql": sq, "ase_before": l})
+						okF = false
+					}
+				}
+			}
+		}
+		r.Count("backward_then_forward_pairs", int64(pairs))
+	}
 	// ---- printing and translating back agree, also for integers far
 	// outside the named levels (a table lookup may narrow the value)
 	{
